@@ -34,6 +34,22 @@ CHECKS['C20'] = dict(cat='exploration', ref='4 C20',
    text='Configuration-differential monitor: the same query on an all-compiled engine and on an engine where a random subset of fact predicates is registered as Python generators (inferred/explicit/variadic arity, yield True/False, before/after load, next to dynamic facts) must give the reference answers; a recording wrapper inside each Python predicate observes the arguments received in call order (checked against the reference call trace) and a raising predicate must deliver the same exception object to the consumer.',
    note='Trusted: reference interpreters A and B (must agree); Python predicates are written in the documented unify/yield style with fresh variables per call.',
    tech='runtime differential monitoring across configurations with recorded call trace and exception identity check')
+CHECKS['C07'] = dict(cat='exploration', ref='4 C07',
+   text='History monitor: generated operation histories (assert/retract/retractall/clear/query through the Python API and through compiled one-clause drivers, goals inline and in variables, retract exhausted or abandoned after k answers) run on the real engine; the result of every operation and a full read-back of every name/arity after every step are compared with the ordered-list fact store of two independent reference interpreters. Thorough enumerates all histories of length <= 4 over a 12-operation alphabet.',
+   note='Trusted: the list model embedded in reference interpreters A and B (must agree). No modification during a suspended enumeration (C14).',
+   tech='offline checking of recorded operation histories against an executable list model')
+CHECKS['C13'] = dict(cat='exploration', ref='4 C13',
+   text='History monitor over "build term - bind before/after/through a chain/inside a structure - assert - undo or keep - use 1-3 times", through compiled clauses and through the API with unifications held open, including two simultaneously suspended uses; all answers and the read-back store compared with the dual reference (copy at assert, rename at use).',
+   note='Trusted: reference interpreters A and B; STO cases discarded.',
+   tech='offline checking of recorded histories against dual reference interpreters')
+CHECKS['C14'] = dict(cat='exploration', ref='4 C14',
+   text='Step-wise interleaving monitor: suspended enumerations (query or retract) are stepped with next() while the same predicate is modified between steps (API), and compiled bodies assert/retract between two answers (drain loop, counter loop, nested enumerations, random goal sequences); every step answer and the final store are compared with two references implementing the logical update view; termination is decided on a logical event clock, never wall time. Thorough enumerates all interleavings of 2 enumerations x <= 3 modifications on a 3-fact predicate.',
+   note='Trusted: reference interpreters A and B; "started" = first next().',
+   tech='offline checking of step-wise interleaved histories against a logical-update-view model; logical-clock progress bound')
+CHECKS['C15'] = dict(cat='exploration', ref='4 C15',
+   text='Monitor on the export paths of answers: for acyclic equation systems executed in random orders (outer-first, inner-first, chains) through compiled bodies, head unification, findall, assertz and nested API unifications, to_python at the answer and the saved get_value result inspected WITHOUT dereferencing after the generator is closed are compared with the order-independent solution computed by a reference unifier.',
+   note='Trusted: the reference unifier; partial lists are not passed to to_python (unspecified).',
+   tech='runtime assertion monitor on get_value/to_python results at the answer and after backtracking')
 PENDING = {}
 
 def main():
